@@ -876,10 +876,14 @@ func (d *driver) selftest() int {
 						bad++
 					}
 					for _, r := range res {
-						if hashes[r.Seed] == nil {
-							hashes[r.Seed] = map[string]bool{}
+						k := r.Seed*1000003 + int64(len(r.Variant))*7919
+						for _, c := range r.Variant {
+							k = k*131 + int64(c)
 						}
-						hashes[r.Seed][r.HistHash+"/"+r.SchedHash] = true
+						if hashes[k] == nil {
+							hashes[k] = map[string]bool{}
+						}
+						hashes[k][r.HistHash+"/"+r.SchedHash] = true
 					}
 				}(idx*100+len(prop), gmp)
 			}
